@@ -26,6 +26,14 @@ func genSession(t *rapid.T) Round {
 	r := Round{Comp: "session-manager", P: map[string]int{}}
 	r.Closers = rapid.SampledFrom([]int{2, 2, 2, 3, 3, 4, 5, 6, 8}).Draw(t, "closers")
 	r.Paths = drawPaths(t, sessionPaths, 3)
+	if rapid.IntRange(0, 2).Draw(t, "sameConn") == 0 {
+		// a packet handler and CloseConnection on the SAME connection (what a read loop and a
+		// stale-connection sweep / duplicate-login eviction do)
+		r.Paths = []string{"close-connection-2", rapid.SampledFrom([]string{"tunnel-open", "handshake"}).Draw(t, "handler")}
+		if rapid.Bool().Draw(t, "third") {
+			r.Paths = append(r.Paths, rapid.SampledFrom([]string{"heartbeat", "peer-closes", "parent-cancel", "accept"}).Draw(t, "thirdPath"))
+		}
+	}
 	r.P["conns"] = rapid.IntRange(1, 4).Draw(t, "conns")
 	r.P["variant"] = rapid.IntRange(0, 1).Draw(t, "ticker") // 1: stale-connection ticker every 200us with a 1ns heartbeat timeout
 	r.P["login"] = rapid.IntRange(0, 1).Draw(t, "login")    // first connection is an authenticated control connection
@@ -94,9 +102,13 @@ func runSession(r Round) *outcome {
 				push(last, &packet.TransferPacket{PacketType: packet.Handshake, Payload: []byte(`{"client_id":0,"token":"","version":"1.0","protocol":"tcp","connection_type":"control"}`)})
 			})
 		case "tunnel-open":
-			rc.spin(kindPath, "HandlePacket-tunnel-open", func() {
-				push(last, &packet.TransferPacket{PacketType: packet.TunnelOpen, Payload: []byte(`{"tunnel_id":"t-c16","mapping_id":"nope","secret_key":"x"}`)})
-			})
+			// two in-flight handlers (a client may pipeline requests): more chances that one of them
+			// has fetched the connection just before CloseConnection removes it
+			for k := 0; k < 2; k++ {
+				rc.spin(kindPath, "HandlePacket-tunnel-open", func() {
+					push(last, &packet.TransferPacket{PacketType: packet.TunnelOpen, Payload: []byte(`{"tunnel_id":"t-c16","mapping_id":"nope","secret_key":"x"}`)})
+				})
+			}
 		case "accept":
 			near, far := vkit.NewBufConnPair("10.3.0.99:5000", "10.0.0.1:8000")
 			late = far
@@ -159,6 +171,6 @@ func runSession(r Round) *outcome {
 	return o
 }
 
-var compSession = register(&component{name: "session-manager", quick: 1200, thorough: 30000, gen: genSession, run: runSession})
+var compSession = register(&component{name: "session-manager", quick: 2000, thorough: 40000, gen: genSession, run: runSession})
 
 func TestSessionManager(t *testing.T) { compSession.test(t) }
